@@ -6,7 +6,7 @@
     Statements only; the proofs are in [Proofs/]. *)
 From WT Require Import Base.Wrap Base.ListX Model.Time Model.Ring Model.Update Spec.LogSpec
   Proofs.TimeProofs Proofs.RingProofs Proofs.FetchProofs Proofs.UpdateProofs Proofs.ChainProofs
-  Proofs.ArchiveUpdateProofs Proofs.RoutingProofs Proofs.HistoryProofs.
+  Proofs.ArchiveUpdateProofs Proofs.RoutingProofs Proofs.HistoryProofs Spec.WfLayout Proofs.LayoutBridge.
 
 (** Every history of single and batch updates (any archive, any order, stale, future and
     duplicate points, clock advances of any size) from a freshly created file, for every
@@ -57,3 +57,13 @@ Theorem C01_fetch_of_represented_log arcs id a log from until now :
       forall k, 0 <= k < (u - f) / a_step a -> znth NaN vs k = live log (period a) (f + k * a_step a).
 Proof. exact (fetch_named arcs id a log from until now). Qed.
 Print Assumptions C01_fetch_of_represented_log.
+
+(** "every layout in the format's range": the two layout hypotheses above hold for every archive
+    list that validation accepts ([wf_layout] is the declarative form of the code's validation,
+    C07), and they are satisfiable together with the clock domain. *)
+Theorem C01_layout_hypotheses_are_the_validated_layouts L : wf_layout L ->
+  wf_layout_full L /\ Forall (fun sn => 0 < fst sn /\ 0 < snd sn /\ fst sn * snd sn < TMAX) L.
+Proof. exact (wf_layout_full_of_wf_layout L). Qed.
+Print Assumptions C01_layout_hypotheses_are_the_validated_layouts.
+Example C01_example : wf_layout [(1, 7); (7, 10)] /\ clock_ok [(1, 7); (7, 10)] 1700000000.
+Proof. exact wf_layout_example. Qed.
